@@ -157,6 +157,12 @@ func (s *sys) body(dn string) supervisor.Runnable {
 			case c == "panic":
 				exit("panic")
 				panic("scripted panic")
+			case c == "missignal":
+				// a service that signals healthy a second time: the supervisor's own API panics (by design) in
+				// the service's goroutine - one more way for a service to fail
+				exit("missignal")
+				supervisor.Signal(ctx, supervisor.SignalHealthy)
+				return errors.New("unreachable: Signal must have panicked")
 			case c == "notice":
 				exit("cancelled")
 				return ctx.Err()
@@ -190,8 +196,8 @@ func newSys(cfg *config) *sys {
 		s.alphabet = append(s.alphabet, "step:"+sv.DN)
 	}
 	for _, sv := range cfg.Services {
-		for _, k := range []string{"err", "nil", "panic", "ctxerr"} {
-			if k == "panic" && cfg.NoPanic {
+		for _, k := range []string{"err", "nil", "panic", "ctxerr", "missignal"} {
+			if (k == "panic" || k == "missignal") && cfg.NoPanic {
 				continue
 			}
 			s.alphabet = append(s.alphabet, "fail:"+sv.DN+":"+k)
@@ -273,6 +279,7 @@ func (s *sys) tell(in *instance, c string) bool {
 		return true
 	default:
 	}
+	wedges++
 	s.mu.Lock()
 	in.stuck = true
 	s.bad = append(s.bad, "service "+in.dn+" is parked inside a supervisor call that does not return (the supervisor is wedged)")
@@ -304,7 +311,19 @@ func nextSetup(sp *svc, in *instance) string {
 	return ""
 }
 
+// wedges counts supervisors found wedged in this worker. Their goroutines can never end (they wait for a lock
+// that is never released), so every further one makes goroutine inspection slower: after 25 the worker stops
+// offering events (the violation has been reported 25 times by then; a cap is recorded).
+var wedges int
+
 func (s *sys) Enabled() []int {
+	if wedges > 25 {
+		if wedges < 1000000 {
+			wedges = 1000000
+			r.Cap("the supervisor was found wedged 25 times; the rest of this worker's exploration was cut short")
+		}
+		return nil
+	}
 	var out []int
 	for i, a := range s.alphabet {
 		p := strings.Split(a, ":")
